@@ -1,10 +1,10 @@
 (* C17 -- behaviour does not depend on sequence-number origins, even across wraparound.
    Property theorems only.  Proofs: Proof/SerialP.v (laws of the GENERATED serial
-   arithmetic of utils.py), Proof/SctpShiftP.v (SCTP receiver), Proof/SctpTxShiftP.v (SCTP sender), Proof/JitterShiftP.v
+   arithmetic of utils.py), Proof/SctpShiftP.v (SCTP receiver), Proof/SctpTxShiftP.v (SCTP sender), Proof/SctpSsnShiftP.v (stream sequence numbers), Proof/JitterShiftP.v
    (jitter buffer), Proof/StatsShiftP.v (receiver statistics). *)
 From Coq Require Import ZArith List Bool.
 From AV Require Import Gen.Utils Gen.SctpConst Model.SctpRecv Proof.SerialP Proof.SctpC01P Proof.SctpShiftP.
-From AV Require Model.SctpTx Proof.SctpTxShiftP.
+From AV Require Model.SctpTx Proof.SctpTxShiftP Proof.SctpSsnShiftP.
 From AV Require Model.Jitter Model.Stats Proof.JitterP Proof.JitterInvP Proof.JitterShiftP Proof.StatsRunP Proof.StatsShiftP.
 Import ListNotations.
 Local Open Scope Z_scope.
@@ -81,6 +81,20 @@ Theorem C17_sctp_sender_shift : forall d t rw is,
   (TS.shs d (fst (Tx.run (Tx.init t rw) is)), map (map (TS.shout d)) (snd (Tx.run (Tx.init t rw) is))).
 Proof. exact TS.sender_shift_invariant. Qed.
 Print Assumptions C17_sctp_sender_shift.
+
+(* 2c. Stream sequence numbers.  For ANY set of streams expecting ANY 16-bit sequence number x,
+   ANY delta and ANY event list (DATA chunks of those streams with 16-bit SSNs, FORWARD-TSN
+   chunks naming them): the receiver whose streams expect x + delta (mod 2^16), fed the events
+   with every SSN shifted by delta, delivers exactly the same messages and sends exactly the
+   same SACKs at every step; its state is the unshifted one with the SSNs shifted.  Taking
+   x + delta just below 2^16: a stream whose SSNs wrap behaves like one that starts at 0. *)
+Module SS := AV.Proof.SctpSsnShiftP.
+Theorem C17_sctp_ssn_shift : forall e base x ids es,
+  in16 x -> Forall (SS.ev_ok ids) es ->
+  rrun (SS.rinit_ssn base (SS.sh16 e x) ids) (map (SS.shev e) es) =
+  (SS.shs e (fst (rrun (SS.rinit_ssn base x ids) es)), snd (rrun (SS.rinit_ssn base x ids) es)).
+Proof. exact SS.ssn_origin_independent. Qed.
+Print Assumptions C17_sctp_ssn_shift.
 
 (* 3. Jitter buffer: shifting every RTP sequence number by any delta (mod 2^16) yields
    identical PLI flags and released frames; shifting every timestamp (mod 2^32) only
